@@ -27,7 +27,17 @@ func TestMain(m *testing.M) { rt.Main(m, "C15") }
 var E = ev.Get("C15")
 
 // Instance names: clean per README (no "//", "./", "../").
-var instances = []string{"", "", "foo", "a/b/c", "ac", "cas", "x/ac", "ac/cas/blobs", "blobs", "ünï-cödé", "команда/проект", "team a", "50%done", "q?x=1", "frag#1", "plus+sign", "e3b0c44298fc1c149afbf4c8996fb92427ae41e4649b934ca495991b7852b855", "UPPER/lower"}
+var instances = []string{"", "", "foo", "a/b/c", "ac", "cas", "x/ac", "ac/cas/blobs", "blobs", "ünï-cödé", "команда/проект", "team a", "50%done", "q?x=1", "frag#1", "plus+sign", "e3b0c44298fc1c149afbf4c8996fb92427ae41e4649b934ca495991b7852b855", "UPPER/lower",
+	// longer than one SHA-256 block, pairwise equal in their first 64 / 128 bytes
+	"projects/acme-build-infra/locations/europe-west4/instances/ci-linux/team-alpha",
+	"projects/acme-build-infra/locations/europe-west4/instances/ci-linux/team-bravo",
+	"projects/acme-build-infra/locations/europe-west4/instances/ci-li",
+	longInst + "/tail-one", longInst + "/tail-two", longInst}
+
+// families of long names that agree in a long prefix
+var longFamilies = [][]string{instances[len(instances)-6 : len(instances)-3], instances[len(instances)-3:]}
+
+const longInst = "org/0123456789abcdef0123456789abcdef0123456789abcdef0123456789abcdef/0123456789abcdef0123456789abcdef0123456789abcdef0123456789abcdef"
 
 type world struct {
 	s       *stack.Stack
@@ -100,6 +110,13 @@ func TestC15Isolation(t *testing.T) {
 		var keys []string
 		for i := 0; i < nk; i++ {
 			c := gen.Expand(uint64(i)+31, rapid.IntRange(1, 3000).Draw(t, "contentLen"), rapid.SampledFrom([]string{"rand", "text"}).Draw(t, "content"))
+			if i == 0 && rapid.IntRange(0, 4).Draw(t, "emptyKey") == 0 {
+				// the empty blob's hash as a key: the CAS holds that blob by
+				// definition, the other two namespaces hold nothing under it
+				c = []byte{}
+				w.cas[gen.SHA(c)] = c
+				E.Label("key=empty-blob-hash")
+			}
 			contents = append(contents, c)
 			keys = append(keys, gen.SHA(c))
 		}
@@ -107,6 +124,10 @@ func TestC15Isolation(t *testing.T) {
 		insts := []string{}
 		for i := 0; i < ninst; i++ {
 			insts = append(insts, rapid.SampledFrom(instances).Draw(t, "inst"))
+		}
+		if rapid.IntRange(0, 3).Draw(t, "longFamily") == 0 {
+			insts = append([]string{}, rapid.SampledFrom(longFamilies).Draw(t, "family")...)
+			E.Label("instances=long-common-prefix")
 		}
 		crossFrontEnd := false
 		usedInst := map[string]bool{}
